@@ -7,7 +7,7 @@ WIT = [("PageTree_w_range_le.cfg", "range_le"), ("PageTree_w_leaf_no_advance.cfg
 
 
 def run(tier, seed):
-    cfgs = ["PageTree_q.cfg", "PageTree_q6s.cfg", "PageTree_deep.cfg"] if tier == "quick" else ["PageTree_q.cfg", "PageTree_deep.cfg", "PageTree_t6.cfg", "PageTree_t7.cfg"]
+    cfgs = ["PageTree_q.cfg", "PageTree_q6s.cfg", "PageTree_deep.cfg", "PageTree_deep16.cfg"] if tier == "quick" else ["PageTree_q.cfg", "PageTree_deep.cfg", "PageTree_deep16.cfg", "PageTree_t6.cfg", "PageTree_t7.cfg"]
     return common.run_enum(PID, tier, seed, "MC_PageTree", "pagetree", cfgs, WIT,
         actions=["AddNode", "Place", "Visit"],
         rule="every ordered page tree TLC builds (<=5 nodes quick, <=6/7 thorough, plus 12-level chains) x attribute placements; each becomes a real "
